@@ -14,7 +14,7 @@ use serde_json::{json, Value};
 pub const META: Meta = Meta {
     id: "C03",
     level: "exploration",
-    rule: "Cases are (entity length L, Range header value) pairs: (a) every set of 1-2 specs (1-3 for L<=4) over all three spec forms with positions 0..=L+2 for L in 1..=8 [exhaustive]; (b) the boundary product L x positions from {0,1,L-1,L,L+1,2^32,2^63,2^64-2,2^64-1,2^64,10^25}, 1-2 specs exhaustive and 3 specs sampled; (c) proptest threshold sets aimed at the multipart/200 decision; (d) near-miss and garbage headers; (e) zero-padded spellings (widths up to 26) of every boundary position; (f) sets of 9 to 1500 small ranges of a large entity (the number of specs as a dimension; multipart mandatory). Oracle: independent u128 resolver returning the set of outcomes the statement allows. Non-trivial = grammatical header whose resolution clamps, uses a suffix, drops a spec or yields several ranges, or a non-grammatical header; distinct by fingerprint of (L, header).",
+    rule: "Cases are (entity length L, Range header value) pairs: (a) every set of 1-2 specs (1-3 for L<=4) over all three spec forms with positions 0..=L+2 for L in 1..=8 [exhaustive]; (b) the boundary product L x positions from {0,1,L-1,L,L+1,2^32,2^63,2^64-2,2^64-1,2^64,10^25}, 1-2 specs exhaustive and 3 specs sampled; (c) proptest threshold sets aimed at the multipart/200 decision; (d) near-miss and garbage headers; (e) zero-padded spellings (widths up to 26) of every boundary position; (f) sets of 9 to 1500 small ranges of a large entity (the number of specs as a dimension; multipart mandatory). A third of the cases carry a strong ETag echoed in If-Range (same resolution demanded). Oracle: independent u128 resolver returning the set of outcomes the statement allows. Non-trivial = grammatical header whose resolution clamps, uses a suffix, drops a spec or yields several ranges, or a non-grammatical header; distinct by fingerprint of (L, header).",
     assumptions: &[
         "harness entity honours the Entity contract (exact bytes, fused streams)",
         "lenient-but-RFC-grammatical forms (OWS before commas, empty list elements, unit in another case, last<first) may be either ignored or resolved; both are accepted; numbers of 2^64 and beyond make the header unparseable (200); zero-padded numbers that fit u64 are grammatical and must be resolved",
@@ -30,6 +30,10 @@ pub struct Case {
     pub plan: Vec<PStep>,
     #[serde(default)]
     pub headers: Vec<(String, Bs)>,
+    /// the entity has a strong ETag and the request echoes it in If-Range (the Range must then be
+    /// resolved exactly as without If-Range)
+    #[serde(default)]
+    pub if_range: bool,
 }
 
 fn rel(x: u128, l: u64) -> &'static str {
@@ -83,7 +87,7 @@ fn outcome_name(o: &Outcome) -> &'static str {
 pub fn check(c: &Case, acc: &mut Acc) -> Check {
     let ent = EntitySpec {
         len: c.len,
-        etag: None,
+        etag: if c.if_range { Some(Bs::s("\"c03\"")) } else { None },
         mtime: Mtime::None,
         headers: c.headers.clone(),
         plan: if c.plan.is_empty() { vec![PStep::Rest] } else { c.plan.clone() },
@@ -93,8 +97,12 @@ pub fn check(c: &Case, acc: &mut Acc) -> Check {
         counting_hint: false,
         unfused_errors: false,
     };
-    let req = ReqSpec::get().with("range", &c.range.0);
-    let hdr_bytes: usize = c.headers.iter().map(|(k, v)| k.len() + v.0.len() + 4).sum();
+    let mut req = ReqSpec::get().with("range", &c.range.0);
+    if c.if_range {
+        req = req.with("if-range", "\"c03\"");
+    }
+    // with a matching If-Range the parts do not repeat the entity's headers
+    let hdr_bytes: usize = if c.if_range { 0 } else { c.headers.iter().map(|(k, v)| k.len() + v.0.len() + 4).sum() };
     let exp = range_ref::expect(Some(&c.range.0), c.len, hdr_bytes);
     let sh = shape(&c.range.0, c.len);
     let opts = DrainOpts {
@@ -140,9 +148,14 @@ pub fn check(c: &Case, acc: &mut Acc) -> Check {
             }
         }
         Kind::Multi { ranges: Some(rs), .. } => Outcome::Multi(rs.clone()),
-        Kind::Multi { ranges: None, .. } => {
+        Kind::Multi { ranges: None, truncated: true, .. } => {
             acc.count("multipart-uninterpretable(see C06)");
             return Ok(());
+        }
+        Kind::Multi { ranges: None, .. } => {
+            // drained completely and still not a multipart/byteranges document a client could read
+            let why = view.first_issue(&["multipart:", "fmt:"]).map(|i| i.msg.clone()).unwrap_or_default();
+            return fail(format!("{sh}->multipart-unreadable"), format!("L={} Range={:?}{}: the multipart body cannot be parsed: {why}", c.len, crate::util::show_bytes(&c.range.0), if c.if_range { " with a matching If-Range" } else { "" }));
         }
         Kind::Unsat { .. } => Outcome::Unsatisfiable,
         Kind::Other if view.status == 413 => Outcome::TooLarge,
@@ -219,6 +232,8 @@ fn run_sets(cx: &Cx, phase: &str, l: u64, specs: &[String], max_n: usize, acc: &
     let one = |range: String, acc: &mut Acc| {
         let c = Case {
             len: l,
+            // a third of the enumerated sets also with a matching If-Range
+            if_range: range.len() % 3 == 0,
             range: Bs(range.into_bytes()),
             plan: vec![],
             headers: vec![],
@@ -306,6 +321,7 @@ fn near_miss_strategy() -> BoxedStrategy<Case> {
         }
         Case {
             len: l.max(1),
+            if_range: b.len() % 4 == 0,
             range: Bs(b),
             plan: vec![],
             headers: vec![],
@@ -316,12 +332,14 @@ fn near_miss_strategy() -> BoxedStrategy<Case> {
         range: Bs(s.as_bytes().to_vec()),
         plan: vec![],
         headers: vec![],
+        if_range: l % 3 == 0,
     });
     let arb = (reqgen::small_len_strategy(), reqgen::arbitrary_value()).prop_map(|(l, v)| Case {
         len: l.max(1),
         range: v,
         plan: vec![],
         headers: vec![],
+        if_range: false,
     });
     prop_oneof![5 => edited, 2 => fixed, 2 => arb].boxed()
 }
@@ -367,6 +385,7 @@ fn threshold_strategy() -> BoxedStrategy<Case> {
             }
             Case {
                 len: l,
+                if_range: v.len() % 3 == 0,
                 range: Bs(v.into_bytes()),
                 plan,
                 headers,
@@ -387,6 +406,7 @@ fn random_strategy() -> BoxedStrategy<Case> {
         })
         .prop_map(|(l, v, plan, headers)| Case {
             len: l,
+            if_range: v.len() % 3 == 0,
             range: Bs(v.into_bytes()),
             plan,
             headers,
@@ -414,7 +434,7 @@ pub fn run(cx: &Cx) -> Acc {
         for &p in boundary_positions(l).iter().filter(|p| **p <= u64::MAX as u128) {
             for w in [2usize, 19, 20, 21, 22, 26] {
                 for r in [format!("bytes={p:0w$}-"), format!("bytes=0-{p:0w$}"), format!("bytes=-{p:0w$}"), format!("bytes=0-0,{p:0w$}-{p:0w$}")] {
-                    let c = Case { len: l, range: Bs(r.into_bytes()), plan: vec![], headers: vec![] };
+                    let c = Case { len: l, range: Bs(r.into_bytes()), plan: vec![], headers: vec![], if_range: false };
                     acc.run_case(cx, "zero-padded", &c, |acc| check(&c, acc));
                 }
             }
@@ -432,6 +452,7 @@ pub fn run(cx: &Cx) -> Acc {
                 range: Bs(format!("bytes={}{}{}{}{}", pick(sel[0]), sep(seps & 1 == 0), pick(sel[1]), sep(seps & 2 == 0), pick(sel[2])).into_bytes()),
                 plan: vec![],
                 headers: vec![],
+                if_range: false,
             }
         })
     }, |c, acc| check(c, acc)));
@@ -468,7 +489,7 @@ fn many_specs_strategy() -> BoxedStrategy<Case> {
                     _ => v.push_str(&format!("{a}-{}", a.saturating_add(w))),
                 }
             }
-            Case { len, range: Bs(v.into_bytes()), plan: vec![], headers: vec![] }
+            Case { len, range: Bs(v.into_bytes()), plan: vec![], headers: vec![], if_range: false }
         })
         .boxed()
 }
